@@ -326,6 +326,125 @@ theorem collision_paths_agree (c : Cfg) (inc out : OpenMsg) (hinc : validateOpen
 example : collideOutgoingFirst ⟨65001, 1, 65002, 90, 30, 30, 0⟩ ⟨4, 65002, 2, 1⟩ ⟨4, 65002, 2, 90⟩
     = .session .o ⟨4, 65002, 2, 90⟩ := by decide
 
+/-! ## timer state carried from one session to the next -/
+
+/-- outside IDLE the idle hold time is the default again (5 s): whatever an earlier
+    administrative reset installed has been consumed by the expiry that led out of IDLE -/
+def IdleHoldDefault (s : St) : Prop := s.st ≠ .idle → s.idleHold = holdtimeIdle
+
+theorem fireTimer_idleHoldDefault {s : St} {t d : Nat} {tm : Tm} (hd : due s t = some (tm, d))
+    (h : IdleHoldDefault s) : IdleHoldDefault (fireTimer s tm d).1 := by
+  cases tm with
+  | idle =>
+    have hs := due_idle hd
+    by_cases ha : s.admin = .up <;> simp [IdleHoldDefault, fireTimer, ha, hs]
+  | hold => simp [IdleHoldDefault, fireTimer, notifyIdle, toIdle]
+  | ka => simpa [IdleHoldDefault, fireTimer] using h
+
+theorem advance_idleHoldDefault (f : Nat) (s : St) (t : Nat) (h : IdleHoldDefault s) :
+    IdleHoldDefault (advance f s t).1 := by
+  induction f generalizing s with
+  | zero => simpa [advance] using h
+  | succ f ih =>
+    unfold advance
+    cases hd : due s t with
+    | none => simpa [IdleHoldDefault] using h
+    | some p =>
+      obtain ⟨tm, d⟩ := p
+      exact ih _ (fireTimer_idleHoldDefault hd h)
+
+theorem step_idleHoldDefault (c : Cfg) (s : St) (e : Ev) (h : IdleHoldDefault s) :
+    IdleHoldDefault (step c s e).1 := by
+  unfold step
+  by_cases hd : s.deleted = true
+  · simp only [hd, if_true]
+    cases e <;> simpa [onDeleted, IdleHoldDefault] using h
+  · simp only [hd]
+    cases e with
+    | tick t => exact advance_idleHoldDefault _ _ _ h
+    | «open» o =>
+      cases hs : s.st <;> simp_all [IdleHoldDefault, onIdle, onActive, onOpensent, onOpenconfirm,
+        onEstablished, notifyIdle, toIdle]
+      cases hv : validateOpen c o <;> simp_all [notifyIdle, toIdle]
+    | update n =>
+      cases hs : s.st <;> simp_all [IdleHoldDefault, onIdle, onActive, onOpensent, onOpenconfirm,
+        onEstablished, notifyIdle, toIdle]
+      split <;> simp_all
+    | _ =>
+      cases hs : s.st <;> simp_all [IdleHoldDefault, onIdle, onActive, onOpensent, onOpenconfirm,
+        onEstablished, notifyIdle, closeIdle, toIdle, die]
+
+/-- **idle_hold_consumed_once** — for every history (any number of sessions, resets, failures,
+    disable/enable) from the initial state: (1) whenever the peer is outside IDLE its idle hold
+    time is the default 5 s again — the idle-hold-time-after-reset an administrative reset
+    installed governs exactly one IDLE period; (2) hence an IDLE period entered from such a state by
+    any event other than silence, deletion or an administrative reset in ESTABLISHED is timed to
+    end 5 s later, and one entered by that reset `idleAfterReset` later. -/
+theorem idle_hold_consumed_once (c : Cfg) (es : List Ev) :
+    IdleHoldDefault (run c init es).1 ∧
+    ∀ e, (∀ t, e ≠ .tick t) →
+      let s := (run c init es).1
+      s.st ≠ .idle → (step c s e).1.st = .idle → (step c s e).1.deleted = false →
+      (step c s e).1.idleT = some (s.now + (if s.st = .established ∧ e = .reset then c.idleAfterReset else 5)) := by
+  have hrun : ∀ (s : St) (es : List Ev), IdleHoldDefault s → IdleHoldDefault (run c s es).1 := by
+    intro s es
+    induction es generalizing s with
+    | nil => intro h; simpa [run] using h
+    | cons e es ih => intro h; simp only [run]; exact ih _ (step_idleHoldDefault c s e h)
+  have h0 : IdleHoldDefault init := by simp [IdleHoldDefault, init]
+  refine ⟨hrun init es h0, ?_⟩
+  intro e ht s hne hidle hdel
+  have hdef : s.idleHold = holdtimeIdle := hrun init es h0 hne
+  have hnd : s.deleted = false := by
+    cases hsd : s.deleted with
+    | false => rfl
+    | true =>
+      exfalso
+      have : (step c s e).1.deleted = true := by
+        unfold step; simp only [hsd, if_true]; cases e <;> simp [onDeleted, hsd]
+      simp [this] at hdel
+  revert hidle hdel
+  unfold step
+  simp only [hnd]
+  cases e with
+  | tick t => exact absurd rfl (ht t)
+  | «open» o =>
+    cases hs : s.st <;> simp_all [onIdle, onActive, onOpensent, onOpenconfirm, onEstablished,
+      notifyIdle, toIdle, holdtimeIdle]
+    cases hv : validateOpen c o <;> simp_all [notifyIdle, toIdle, holdtimeIdle]
+  | update n =>
+    cases hs : s.st <;> simp_all [onIdle, onActive, onOpensent, onOpenconfirm, onEstablished,
+      notifyIdle, toIdle, holdtimeIdle]
+    split <;> simp_all
+  | _ =>
+    cases hs : s.st <;> simp_all [onIdle, onActive, onOpensent, onOpenconfirm, onEstablished,
+      notifyIdle, closeIdle, toIdle, die, holdtimeIdle]
+
+example : (run ⟨65001, 1, 65002, 90, 30, 30, 0⟩ init
+    [.tick 0, .connect, .open ⟨4, 65002, 2, 30⟩, .keepalive, .reset, .tick 30, .connect, .close, .tick 5]).1.st
+    = .active := by decide
+
+/-- **prefix_edit_shuts_iff** — one UpdatePeer call editing the prefix limits of any number of
+    families, in any order: the peer is shut (adminStatePfxCt, Cease/1 "maximum number of prefixes
+    reached") iff SOME family whose limit changed holds more prefixes than its new non-zero limit. -/
+theorem prefix_edit_shuts_iff (fs : List FamEdit) :
+    pfxEditShuts false fs = true ↔ ∃ f ∈ fs, f.oldMax ≠ f.newMax ∧ famOver f = true := by
+  have hgen : ∀ (b : Bool) (fs : List FamEdit),
+      pfxEditShuts b fs = true ↔ (b = true ∨ ∃ f ∈ fs, f.oldMax ≠ f.newMax ∧ famOver f = true) := by
+    intro b fs
+    induction fs generalizing b with
+    | nil => simp [pfxEditShuts]
+    | cons f r ih =>
+      unfold pfxEditShuts
+      by_cases hc : f.oldMax ≠ f.newMax
+      · by_cases ho : famOver f = true
+        · simp [hc, ho, ih]
+        · simp [hc, ho, ih]
+      · simp [hc, ih]
+  simpa using hgen false fs
+
+example : pfxEditShuts false [⟨3, 0, 2⟩, ⟨0, 0, 100⟩] = true := by decide
+
 /-- what the operator's requests and the prefix limit make of the administrative state -/
 def adminSpec (c : Cfg) (s : St) (e : Ev) : Admin :=
   match e with
